@@ -63,6 +63,7 @@ def small_quick():
         inst("smallset", "NTR", "less", back="flatset", N=2, K=2, keys=3, opts=["--few-ranges", "--seqlen", "1", "--no-ctors"]),
         inst("smallset", "TC4", "transparent", back="stdset", N=2, opts=["--few-ranges", "--seqlen", "2"]),
         inst("smallset", "TC4", "less", back="stdset", N=3, std="c++20", opts=["--few-ranges", "--seqlen", "2"]),
+        inst("smallset", "TC4", "less", back="stdset", N=2, K=2, keys=3, std="c++20", opts=["--few-ranges", "--seqlen", "1", "--no-ctors"]),  # <=> between sets in different states
     ]
 
 
